@@ -112,6 +112,25 @@ def gStateId : Graph :=
     inn := [[⟨2, 2, 0⟩], [⟨0, 1, -1⟩], [], [⟨2, 5, -1⟩], [⟨9, 2, 1⟩, ⟨5, 2, 0⟩], [], [⟨5, 5, -1⟩],
             [⟨1, 5, -1⟩, ⟨8, 7, -1⟩], [], []] }
 
+/-- `w = src(); sink(7)` where the literal's STATE node (7, state id 11) is a STATE_IS_USED
+predecessor (edge kind 11) of the sink and happens to have the id of the SYMBOL `w` (node 1, id 11).
+0 = call_stmt `w = src()`, 1 = `w`, 2 = symbol `src`, 3 = its state, 4 = call_stmt `sink`,
+5 = symbol `sink`, 6 = its state, 7 = state of the literal. -/
+def gCodeLit : Graph :=
+  { nodes := [
+      py { kind := 1, defStmt := 10, name := "call_stmt", lineNo := 0, operation := "w = src()",
+           sName := "src", startRow := 0 },
+      py { kind := 2, defStmt := 10, index := 1, nodeId := 11, name := "w" },
+      py { kind := 2, defStmt := 10, index := 2, nodeId := -3, name := "src" },
+      py { kind := 3, defStmt := 10, index := 3, nodeId := 100, name := "ep", ap := [⟨true, "src"⟩] },
+      py { kind := 1, defStmt := 12, name := "call_stmt", lineNo := 1,
+           operation := "%vv2 = sink([7])", sName := "sink", startRow := 1 },
+      py { kind := 2, defStmt := 12, index := 4, nodeId := -2, name := "sink" },
+      py { kind := 3, defStmt := 12, index := 5, nodeId := 101, name := "ep", ap := [⟨true, "sink"⟩] },
+      py { kind := 3, defStmt := 12, index := 6, nodeId := 11, name := "ep" }],
+    out := [[⟨1, 1, -1⟩], [], [⟨0, 2, 0⟩, ⟨3, 5, -1⟩], [], [], [⟨4, 2, 0⟩, ⟨6, 5, -1⟩], [], [⟨4, 11, 1⟩]],
+    inn := [[⟨2, 2, 0⟩], [⟨0, 1, -1⟩], [], [⟨2, 5, -1⟩], [⟨5, 2, 0⟩, ⟨7, 11, 1⟩], [], [⟨5, 5, -1⟩], []] }
+
 /-! ### the witnesses of the findings: graph, rule set, frozen single-flag variant of the pinned code
 
 The driver serialises these cases (`{"m":"taintrules","op":"witnesses"}`) so that every run replays
@@ -180,7 +199,14 @@ def wStateId : WCase :=
     rs := { sources := [srcCall], sinks := [sinkCall "python" (.list [some KW_ARG0])] },
     frozen := current, frozenPrm := fun p => { p with stateUpSymOnly := false } }
 
+/-- a sink_from_code rule on the line of `sink(7)`: every predecessor counted, also the literal's state -/
+def wCodeLit : WCase :=
+  { name := "code-sink-state-operand", g := gCodeLit,
+    rs := { sources := [srcCall],
+            sinkCode := [{ unitPath := "/w/a.py", lineNum := 2, symbolName := "sink", lang := "python" }] },
+    frozen := { current with codeSinkSymOnly := false } }
+
 def allCases : List WCase :=
-  [wCallSrc, wLang, wTargetPos, wCodeSink, wSinkLoc, wFieldRead, wAlias, wStateId]
+  [wCallSrc, wLang, wTargetPos, wCodeSink, wSinkLoc, wFieldRead, wAlias, wStateId, wCodeLit]
 
 end LianVerif.TaintWitness
